@@ -238,3 +238,115 @@ Proof.
       + destruct (addmount_at_most_one n s R) as (_ & _ & Z). specialize (Z B'). lia. }
   exact (G s0).
 Qed.
+
+(* ---- AddMount ---- *)
+From HP Require Import KV.FaultEffects.
+
+(* a mount is accepted only at a valid name other than ".", not yet in the table, that is a DIRECTORY of the file system
+   its parent directory routes to *)
+Theorem addmount_accepts m p nf :
+  snd (m_addmount m p nf) = None ->
+  valid_path p = true /\ p <> dot /\ (forall e, In e (m_table m) -> fst e <> p) /\
+  let '(i, sub) := mount_route (m_table m) (path_dir p) in
+  exists h, snd (kv_stat (fs_at m i) (join2 sub (path_base p))) = inl h /\ is_dir (f_mode h) = true.
+Proof.
+  unfold m_addmount. intros H.
+  destruct (valid_path p) eqn:V; [|discriminate]. cbn [negb orb] in H.
+  destruct (str_eqb_spec p dot) as [->|D]; [discriminate|].
+  destruct (existsb (fun e => str_eqb (fst e) p) (m_table m)) eqn:E; [discriminate|].
+  split; [reflexivity|]. split; [exact D|]. split.
+  - intros e I Ep. assert (X : existsb (fun e => str_eqb (fst e) p) (m_table m) = true).
+    { apply existsb_exists. exists e. split; [exact I|]. rewrite Ep. apply str_eqb_refl. }
+    congruence.
+  - destruct (mount_route (m_table m) (path_dir p)) as [i sub].
+    destruct (kv_stat (fs_at m i) (join2 sub (path_base p))) as [s1 [h|e]]; cbn [snd] in *; [|discriminate].
+    destruct (is_dir (f_mode h)) eqn:Dh; [|discriminate]. exists h. split; [reflexivity|exact Dh].
+Qed.
+
+(* a refused AddMount leaves the table and every record of every constituent as they were *)
+Theorem addmount_refused_changes_nothing m p nf c :
+  snd (m_addmount m p nf) = Some c ->
+  m_table (fst (m_addmount m p nf)) = m_table m /\
+  forall j, st_store (fs_at (fst (m_addmount m p nf)) j) = st_store (fs_at m j).
+Proof.
+  unfold m_addmount. intros H.
+  destruct (negb (valid_path p) || str_eqb p dot); [split; reflexivity|].
+  destruct (existsb (fun e => str_eqb (fst e) p) (m_table m)); [split; reflexivity|].
+  destruct (mount_route (m_table m) (path_dir p)) as [i sub].
+  pose proof (kv_stat_store (fs_at m i) (join2 sub (path_base p))) as S.
+  destruct (kv_stat (fs_at m i) (join2 sub (path_base p))) as [s1 [h|e]]; cbn [fst snd] in *.
+  - destruct (is_dir (f_mode h)); [discriminate|]. cbn [fst]. split; [reflexivity|].
+    intros j. destruct (Nat.eq_dec j i) as [->|N]; [|rewrite set_fs_other by congruence; reflexivity].
+    unfold fs_at, set_fs. cbn [m_fs]. destruct (Nat.lt_ge_cases i (length (m_fs m))) as [L|L].
+    + rewrite (nth_error_nth _ _ _ (nth_error_list_set_eq _ _ _ L)). exact S.
+    + rewrite !nth_overflow by (rewrite ?list_set_length; exact L). reflexivity.
+  - cbn [fst]. split; [reflexivity|].
+    intros j. destruct (Nat.eq_dec j i) as [->|N]; [|rewrite set_fs_other by congruence; reflexivity].
+    unfold fs_at, set_fs. cbn [m_fs]. destruct (Nat.lt_ge_cases i (length (m_fs m))) as [L|L].
+    + rewrite (nth_error_nth _ _ _ (nth_error_list_set_eq _ _ _ L)). exact S.
+    + rewrite !nth_overflow by (rewrite ?list_set_length; exact L). reflexivity.
+Qed.
+
+Lemma addmount_table m p nf :
+  snd (m_addmount m p nf) = None -> m_table (fst (m_addmount m p nf)) = (p, length (m_fs m)) :: m_table m.
+Proof.
+  unfold m_addmount. intros H.
+  destruct (negb (valid_path p) || str_eqb p dot); [discriminate|].
+  destruct (existsb (fun e => str_eqb (fst e) p) (m_table m)); [discriminate|].
+  destruct (mount_route (m_table m) (path_dir p)) as [i sub].
+  destruct (kv_stat (fs_at m i) (join2 sub (path_base p))) as [s1 [h|e]]; cbn [fst snd] in *; [|discriminate].
+  destruct (is_dir (f_mode h)); [reflexivity|discriminate].
+Qed.
+
+Lemma has_prefix_self_slash p : has_prefix p (p ++ [slash]) = false.
+Proof.
+  destruct (has_prefix p (p ++ [slash])) eqn:E; [|reflexivity].
+  apply has_prefix_length in E. rewrite app_length in E. simpl in E. lia.
+Qed.
+
+(* afterwards the new point itself is the root of the new constituent ... *)
+Theorem addmount_routes_the_point m p nf :
+  snd (m_addmount m p nf) = None ->
+  mount_route (m_table (fst (m_addmount m p nf))) p = (length (m_fs m), dot).
+Proof.
+  intros H. destruct (addmount_accepts m p nf H) as (V & D & _). rewrite (addmount_table m p nf H).
+  unfold mount_route. rewrite V. cbn [negb]. unfold mount_point. cbn [mp_scan].
+  rewrite has_prefix_self_slash, str_eqb_refl.
+  assert (T : trim_prefix (trim_prefix p p) [slash] = []).
+  { assert (X : trim_prefix p p = []).
+    { unfold trim_prefix. rewrite has_prefix_refl. rewrite skipn_all. reflexivity. }
+    rewrite X. reflexivity. }
+  rewrite T. destruct p as [|c p']; [discriminate V|].
+  destruct (str_eqb (c :: p') dot) eqn:E; [apply str_eqb_eq in E; congruence|reflexivity].
+Qed.
+
+(* ... every path that is neither the point nor below it is routed exactly as before ... *)
+Theorem addmount_keeps_other_routes m p nf q :
+  snd (m_addmount m p nf) = None -> matches p q = false ->
+  mount_route (m_table (fst (m_addmount m p nf))) q = mount_route (m_table m) q.
+Proof.
+  intros H M. rewrite (addmount_table m p nf H).
+  unfold matches in M. apply orb_false_iff in M. destruct M as [M1 M2].
+  unfold mount_route, mount_point. cbn [mp_scan]. rewrite M1, M2. reflexivity.
+Qed.
+
+(* ... and a path below the point goes to the new constituent unless a longer (nested) mount point matches it *)
+Theorem addmount_routes_below m p nf q :
+  snd (m_addmount m p nf) = None -> has_prefix q (p ++ [slash]) = true ->
+  (forall mp fs, In (mp, fs) (m_table m) -> matches mp q = true -> (length mp <= length p)%nat) ->
+  NoDup (map fst (m_table m)) ->
+  fst (mp_scan (m_table (fst (m_addmount m p nf))) q [] 0%nat) = p.
+Proof.
+  intros H B Short ND. destruct (addmount_accepts m p nf H) as (V & D & Fresh & _).
+  rewrite (addmount_table m p nf H). cbn [mp_scan]. rewrite B.
+  assert (Lp : (0 < length p)%nat) by (destruct p; [discriminate V|simpl; lia]).
+  destruct (Nat.ltb_spec (length (@nil N)) (length p)) as [_|X]; [|simpl in X; lia].
+  destruct (scan_spec (m_table m) q p (length (m_fs m)) (or_intror B)) as (I1 & I2 & _).
+  destruct I1 as [I1|[I1 I1']]; [rewrite I1; reflexivity|].
+  (* a table entry won: it matches q and is at least as long as p, hence exactly as long, hence p itself -- excluded *)
+  destruct (mp_scan (m_table m) q p (length (m_fs m))) as [mp fs]. cbn [fst] in *.
+  pose proof (Short mp fs I1 I1') as L.
+  assert (E : mp = p).
+  { apply (has_prefix_same_length q); [apply matches_prefix; exact I1'|eapply has_prefix_app; exact B|lia]. }
+  exact E.
+Qed.
